@@ -150,3 +150,28 @@ func RunPending(k int) bool { return false }
 // Natively f simply runs to completion (crash points cannot be replayed natively).
 func Process(f func()) bool { f(); return false }
 func Crash()                {}
+
+// Report prints a value natively ("VERIF-REPORT key=value") and records it under the engine (translator validation).
+func Report(key string, v any) {
+	switch x := v.(type) {
+	case string:
+		fmt.Printf("VERIF-REPORT %s=%q\n", key, x)
+	case []byte:
+		parts := ""
+		for i, b := range x {
+			if i > 0 {
+				parts += " "
+			}
+			parts += fmt.Sprint(b)
+		}
+		fmt.Printf("VERIF-REPORT %s=[%s]\n", key, parts)
+	case nil:
+		fmt.Printf("VERIF-REPORT %s=<nil>\n", key)
+	default:
+		fmt.Printf("VERIF-REPORT %s=%v\n", key, x)
+	}
+}
+
+// Symbolize returns s; under the engine the bytes are symbolic variables pinned to s.
+func Symbolize(s string) string    { return s }
+func SymbolizeI64(x int64) int64 { return x }
